@@ -63,8 +63,10 @@ def gen_pattern(rng, pep440_friendly=False):
         if pep440_friendly:
             sep = rng.choice(["", "-"]) if tagpart == "TAG" else ""
         with_num = rng.random() < 0.5
+        # TAG and NUM may be separated by a dot (1.2.3-rc.1 is a PEP 440 spelling of 1.2.3rc1)
+        numsep = "." if (tagpart == "TAG" and rng.random() < 0.25) else ""
         if rng.random() < 0.8 and nopt < 3:
-            out += "[" + sep + tagpart + ("[NUM]" if with_num and rng.random() < 0.5 else ("NUM" if with_num else "")) + "]"
+            out += "[" + sep + tagpart + ("[" + numsep + "NUM]" if with_num and rng.random() < 0.5 else (numsep + "NUM" if with_num else "")) + "]"
         else:
             # outside an optional group only TAG is used: a final release renders PYTAG as the empty
             # string, which its own regex does not accept (such a bump is rejected by the gate, C01)
